@@ -491,7 +491,8 @@ func (L *loopRun) Query(reqs []*query.Request, _ ...query.QueryOption) chan erro
 			}
 			gq := reqs[a.q].Req.(*wire.MsgGetCFHeaders)
 			stop, ok := L.ch.byHash[gq.StopHash]
-			if !ok || int(gq.StartHeight) > stop {
+			if !ok || int(gq.StartHeight) > stop || stop-int(gq.StartHeight)+1 > wire.MaxCFHeadersPerMsg {
+				// no conforming peer answers that
 				L.mu.Unlock()
 				continue
 			}
